@@ -81,6 +81,11 @@ def nrqSchedule (kind : String) (missed : Bool) : Option (List Action × Nat) :=
     let mid := if missed then [Action.recv 0, .unregister 0, .readerLookup ⟨0, 8⟩, .register 1]
                else [Action.readerLookup ⟨0, 8⟩, .recv 0, .unregister 0, .register 1, .readerSend]
     some ([.register 0] ++ own 0 7 ++ mid ++ [.timeout 1, .unregister 1, .register 2] ++ own 2 7 ++ [.recv 2, .unregister 2], 2)
+  | "reopen" =>
+    -- A is in flight; the application closes and reopens the transport (the registrations and the reply inbox
+    -- survive: not a step of the model); B, issued after the reopen, is answered; then A's answer arrives
+    some ([.register 0, .register 1] ++ own 1 7 ++ [.recv 1, .unregister 1] ++ own 0 7 ++
+      [.recv 0, .unregister 0, .register 2] ++ own 2 7 ++ [.recv 2, .unregister 2], 2)
   | _ => none
 
 def showNrqOutcome (c : Caller) : String :=
@@ -106,7 +111,7 @@ def stepRegistry (op : String) (args : List String) : Option String :=
     let s ← run (init FV.Params.resultChanCapNats FV.Params.dispatchSendBlocking (List.range (freshIdx + 1))) as
     let a ← s.callers[0]?
     let f ← s.callers[freshIdx]?
-    let b := if kind == "reuse" then
+    let b := if kind == "reuse" || kind == "reopen" then
         match s.callers[1]? with
         | some c => showNrqOutcome c ++ (if missed == "1" then ":window-missed" else "")
         | none => "?"
